@@ -226,7 +226,7 @@ def generate_config(repo):
         return ast.parse(src), src
     out = []
     out.append("(* GENERATED by /verif/translator/gen_config.py from ibicus/debias/*.py, ibicus/variables.py -- do not edit. *)")
-    out.append("From Coq Require Import ZArith List Bool String.\nFrom IV Require Import ConfigBase XQ.\nImport ListNotations.\nOpen Scope string_scope.\n")
+    out.append("From Coq Require Import ZArith QArith List Bool String.\nFrom IV Require Import ConfigBase XQ.\nImport ListNotations.\nOpen Scope string_scope.\n")
     # variables
     vt, vsrc = load("ibicus/variables.py")
     var_objs = []
@@ -326,6 +326,48 @@ def generate_config(repo):
             raise Refuse("ISIMIP.%s has no default" % b)
         out.append("Definition isimip_default_%s : XQ.t := %s." % (b, xq(fl[b])))
     out.append("")
+    # ISIMIP per-variable settings (ibicus/debias/_isimip_options.py): bounds, thresholds and the switches the
+    # proofs use, with the general settings filled in for keys a variable does not set
+    ot, _ = load("ibicus/debias/_isimip_options.py")
+    def top_dict(name):
+        for n in ot.body:
+            if isinstance(n, ast.Assign) and len(n.targets) == 1 and isinstance(n.targets[0], ast.Name) and n.targets[0].id == name and isinstance(n.value, ast.Dict):
+                return n.value
+        raise Refuse("_isimip_options.%s not found" % name)
+    def lit(node):
+        from fractions import Fraction
+        txt = ast.unparse(node)
+        if txt in ("np.inf", "-np.inf"): return xq(txt)
+        if isinstance(node, ast.Constant) and isinstance(node.value, bool): return "true" if node.value else "false"
+        try:
+            v = eval(txt, {"__builtins__": {}}, {})
+        except Exception:
+            raise Refuse("ISIMIP setting value %r" % txt)
+        if isinstance(v, bool): return "true" if v else "false"
+        if isinstance(v, (int, float)):
+            f = Fraction(txt) if "/" not in txt and "e" not in txt.lower() else Fraction(v).limit_denominator(10 ** 12)
+            if "/" in txt:
+                a_, b_ = txt.split("/"); f = Fraction(a_.strip()) / Fraction(b_.strip())
+            return "(XQ.Fin (%d # %d))" % (f.numerator, f.denominator)
+        raise Refuse("ISIMIP setting value %r" % txt)
+    general = {k.value: v for k, v in zip(top_dict("isimip3_general_settings").keys, top_dict("isimip3_general_settings").values)}
+    rows_ = []
+    vd = top_dict("isimip3_variable_settings")
+    for k, v in zip(vd.keys, vd.values):
+        if not (isinstance(k, ast.Name) and isinstance(v, ast.Dict)):
+            raise Refuse("isimip3_variable_settings entry form")
+        st = {kk.value: vv for kk, vv in zip(v.keys, v.values)}
+        def get(key):
+            node = st.get(key, general.get(key))
+            if node is None: raise Refuse("ISIMIP setting %s missing for %s" % (key, k.id))
+            return node
+        for key in st:
+            if key not in general and key not in ("lower_bound", "lower_threshold", "upper_bound", "upper_threshold", "distribution", "trend_preservation_method"):
+                raise Refuse("unknown ISIMIP setting %s" % key)
+        rows_.append("(%s, mkIsimipVar %s %s %s %s %s %s %s %s %s)" % (cstr(k.id), lit(get("lower_bound")), lit(get("lower_threshold")), lit(get("upper_bound")), lit(get("upper_threshold")),
+                     lit(get("detrending")), lit(get("nonparametric_qm")), lit(get("bias_correct_frequencies_of_values_beyond_thresholds")),
+                     lit(get("scale_by_annual_cycle_of_upper_bounds")), cstr(ast.literal_eval(get("trend_preservation_method")))))
+    out.append("Definition isimip_variable_settings : list (string * isimip_var) :=\n  %s.\n" % clist(rows_))
     # support table
     it, isrc = load("ibicus/debias/__init__.py")
     doc = ast.get_docstring(it, clean=False)
